@@ -98,6 +98,7 @@ def run(ch, params, decoded=False):
         n_noise = add_noise_reads(ch, prog) if params.get("noise_reads") else 0
         prog["ctx"]["nz0"] = "NA0"
         prefix = R.gen_prefix_ops(ch, params, mode, params.get("max_prefix", 0))
+    flip = (not params.get("pinned_prog")) and ch.chance(1, 6, "mode_flip")
     w = R.start_world(knobs, mode)
     violations = []
     stats = {"mode=" + mode: 1}
@@ -105,6 +106,17 @@ def run(ch, params, decoded=False):
     exp = ref.run_model(prog)
     model = exp["model"]
     classes = emit.build_classes(prog)
+    if flip:
+        # configuration history: the same page and component templates were first compiled and rendered under the OTHER
+        # context_behavior (they stay in the template cache); the setting is then changed and must take effect
+        from django.conf import settings
+
+        other = "isolated" if mode == "django" else "django"
+        settings.COMPONENTS = dict(settings.COMPONENTS, context_behavior=other)
+        w.begin_op()
+        R.real_render_page(prog, classes, w, budget=3_000_000)
+        settings.COMPONENTS = dict(settings.COMPONENTS, context_behavior=mode)
+        stats["fault:CONFIG_FLIP(context_behavior between renders)"] = 1
     budget = params["budget_mult"] * max(1, model.node_renders) + 300_000
     observed = {}
 
